@@ -428,6 +428,14 @@ func bindHandle(in []byte) []byte {
 
 var buildWS = 0
 
+// batchFor: a detailed re-run of a few listed cases spreads them over the workers (a case that hangs holds up only itself)
+func batchFor(only string) int {
+	if only != "" {
+		return 2
+	}
+	return 128
+}
+
 func btoi(b bool) int {
 	if b {
 		return 1
@@ -534,7 +542,7 @@ func bindMain(args []string) int {
 			}
 		}
 	}()
-	err := workpool.Run(workpool.Options{Kind: "bind", Workers: *workers, Batch: 128, Env: env, CaseTimeout: 2 * time.Second,
+	err := workpool.Run(workpool.Options{Kind: "bind", Workers: *workers, Batch: batchFor(*only), Env: env, CaseTimeout: 2 * time.Second,
 		OnResult: func(cl, rl []byte) {
 			var r bindRes
 			if json.Unmarshal(rl, &r) != nil {
